@@ -22,26 +22,33 @@
 (* Rational quantities are pairs <<numerator, denominator>>, denominator   *)
 (* positive.                                                               *)
 (*                                                                         *)
-(* SOUNDNESS (TLC, every state of the universe, one or two eliminated      *)
+(* SOUNDNESS (TLC, every state of the universe, one to three eliminated    *)
 (* variables): whenever rows are selected, the system is solvable          *)
 (* (determinant not zero) and the multipliers of the certificate           *)
 (*      den * term - result = SUM mu_i row_i   (ContextReduction!Laws)     *)
 (* are all >= 0 when refining and all <= 0 when relaxing: the context and  *)
 (* the result imply the term, respectively the context and the term imply  *)
-(* the result, for ALL real points.  The wrong variant whose sign test     *)
-(* reads ONE coefficient (`any` for `all`, seeded C01g/2) is refuted.      *)
-(* (With two variables the accumulated sums of condition 3 never decide;   *)
-(* three variables would need the 3 x 3 determinants: not transcribed.)    *)
+(* the result, for ALL real points.  Two wrong variants are refuted: the   *)
+(* sign test reading ONE coefficient (`any` for `all`, seeded C01g/2) and, *)
+(* with THREE eliminated variables, condition 3 without the accumulated    *)
+(* sums (with two variables the sums never decide).                        *)
 (* Generator mode: every state with the selection; lib/kkdrv.py calls the  *)
 (* real _get_kaykobad_context on all of them.                              *)
 (***************************************************************************)
 EXTENDS Integers, Sequences, FiniteSets, TLC, Json
 CONSTANTS VarIds, CoT, CoR, ConstT, ConstR, MaxCtx, ElimLists,
-          SignAny         \* wrong variant: condition 1 holds as soon as ONE coefficient has the right sign
+          KeptOnly,       \* variables that only the term mentions, with coefficient 1 (keeps the three-variable universe small)
+          SignAny,        \* wrong variant: condition 1 holds as soon as ONE coefficient has the right sign
+          NoAccumulation  \* wrong variant: condition 3 without the partial sums of the rows chosen before (three variables)
 SetA == {-2, 0, 1}
 SetB == {-1, 0, 2}
 SetC == {-2, -1, 0, 1, 2}
 Lists1 == {<<1>>, <<1, 2>>, <<2, 1>>, <<1, 3>>}
+Lists3 == {<<1, 2, 3>>, <<3, 1, 2>>}
+NoVars == {}
+Var4 == {4}
+SetT3 == {-3, 2, 3}            \* terms that mention all three variables
+SetR3 == {-1, 0, 1}
 Abs(n) == IF n < 0 THEN -n ELSE n
 Sgn(n) == IF n > 0 THEN 1 ELSE IF n < 0 THEN -1 ELSE 0
 GetSign(n) == IF n >= 0 THEN 1 ELSE -1                                 \* PolyhedralTerm.get_sign: zero counts as positive
@@ -64,7 +71,7 @@ Cond1(r, term, fv, tc) ==
   ELSE \A j \in DOMAIN fv : r.co[fv[j]] # 0 => SignOK(r, term, fv[j], tc)
 Residual(r, term, fv, i, j) == IF j = i THEN <<0, 1>> ELSE RNorm(GetSign(term.co[fv[j]]) * r.co[fv[j]] * term.co[fv[i]], r.co[fv[i]])
 Cond3(r, term, fv, i, ps) ==
-  \A j \in DOMAIN fv : ~RLeq(Abs(term.co[fv[j]]), RAdd(ps[j], Residual(r, term, fv, i, j)))
+  \A j \in DOMAIN fv : ~RLeq(Abs(term.co[fv[j]]), IF NoAccumulation THEN Residual(r, term, fv, i, j) ELSE RAdd(ps[j], Residual(r, term, fv, i, j)))
 Passes(r, term, elim, fv, i, ps, tc) == Cond0(r, term, elim) /\ Cond1(r, term, fv, tc) /\ r.co[fv[i]] # 0 /\ Cond3(r, term, fv, i, ps)
 
 \* list_diff(context.terms, matrix_row_terms) is by term EQUALITY: a row equal to a chosen one is not looked at again
@@ -84,17 +91,23 @@ Select(term, ctx, elim, refine) ==
        THEN [kind |-> "ValueError", rows |-> <<>>]                        \* "Found context will produce empty transformation"
        ELSE r
 
-\* ---- the certificate of the step that follows (ContextReduction.tla): multipliers over the determinant
-Det(F, R) == IF Len(F) = 1 THEN R[1].co[F[1]] ELSE R[1].co[F[1]] * R[2].co[F[2]] - R[1].co[F[2]] * R[2].co[F[1]]
-Mult(t, F, R, i) ==
-  IF Len(F) = 1 THEN t.co[F[1]]
-  ELSE LET a11 == R[1].co[F[1]]  a12 == R[1].co[F[2]]  a21 == R[2].co[F[1]]  a22 == R[2].co[F[2]]  p1 == t.co[F[1]]  p2 == t.co[F[2]] IN
-       IF i = 1 THEN p1 * a22 - p2 * a21 ELSE a11 * p2 - a12 * p1
+\* ---- the certificate of the step that follows (ContextReduction.tla): multipliers over the determinant, by Cramer's rule, n <= 3
+Minor(M, r, c) == [i \in 1..(Len(M) - 1) |-> [j \in 1..(Len(M) - 1) |-> M[IF i < r THEN i ELSE i + 1][IF j < c THEN j ELSE j + 1]]]
+RECURSIVE DetM(_), Expand(_, _)
+Expand(M, j) == IF j > Len(M) THEN 0 ELSE (IF j % 2 = 1 THEN 1 ELSE -1) * M[1][j] * DetM(Minor(M, 1, j)) + Expand(M, j + 1)
+DetM(M) == IF Len(M) = 1 THEN M[1][1] ELSE Expand(M, 1)
+\* A^T : entry (j, i) = coefficient of row i on variable F[j]
+AT(F, R) == [j \in 1..Len(F) |-> [i \in 1..Len(F) |-> R[i].co[F[j]]]]
+Det(F, R) == DetM(AT(F, R))
+\* numerator of mu_i in  A^T mu = p  (p = the term's coefficients on F): column i replaced by p
+Mult(t, F, R, i) == DetM([j \in 1..Len(F) |-> [k \in 1..Len(F) |-> IF k = i THEN t.co[F[j]] ELSE R[k].co[F[j]]]])
 
 VARIABLES term, ctx, elim, refine
 vars == <<term, ctx, elim, refine>>
 Forms(S, C) == {Form(co, c) : co \in [VarIds -> S], c \in C}
-Init == /\ term \in Forms(CoT, ConstT) /\ ctx \in UNION {[1..n -> Forms(CoR, ConstR)] : n \in 0..MaxCtx}
+TermForms == {f \in Forms(CoT \cup {1}, ConstT) : (\A v \in KeptOnly : f.co[v] = 1) /\ (\A v \in VarIds \ KeptOnly : f.co[v] \in CoT)}
+RowForms == {f \in Forms(CoR \cup {0}, ConstR) : (\A v \in KeptOnly : f.co[v] = 0) /\ (\A v \in VarIds \ KeptOnly : f.co[v] \in CoR)}
+Init == /\ term \in TermForms /\ ctx \in UNION {[1..n -> RowForms] : n \in 0..MaxCtx}
         /\ elim \in ElimLists /\ refine \in BOOLEAN
         /\ Forbidden(term, elim) # <<>>
 Next == UNCHANGED vars
@@ -110,6 +123,12 @@ Sound ==
     /\ \A i \in DOMAIN F : IF refine THEN Mult(term, F, R, i) * d >= 0 ELSE Mult(term, F, R, i) * d <= 0
 Found == Select(term, ctx, elim, refine).kind # "rows"                         \* vacuity guard: must be refuted
 FoundTwo == ~(Select(term, ctx, elim, refine).kind = "rows" /\ Len(Forbidden(term, elim)) = 2)   \* vacuity guard: must be refuted
+FoundThree == ~(Select(term, ctx, elim, refine).kind = "rows" /\ Len(Forbidden(term, elim)) = 3) \* vacuity guard: must be refuted
 
 Emit == PrintT(<<"CASE", ToJson([term |-> term, ctx |-> ctx, elim |-> elim, refine |-> refine, sel |-> Select(term, ctx, elim, refine)])>>)
+\* the three-variable universe has 2.2 M states: every selection that succeeds and one in sixteen of the others
+RECURSIVE MixRows(_, _)
+MixRows(c, k) == IF k > Len(c) THEN 0 ELSE (7 * k + 3) * c[k].co[1] + (11 * k + 5) * c[k].co[2] + (13 * k + 1) * c[k].co[3] + MixRows(c, k + 1)
+Mix == term.co[1] + 3 * term.co[2] + 5 * term.co[3] + 7 * Len(ctx) + (IF refine THEN 13 ELSE 0) + elim[1] + MixRows(ctx, 1)
+EmitSample == (Select(term, ctx, elim, refine).kind = "rows" \/ Mix % 16 = 0) => Emit
 =====================================================================
